@@ -713,7 +713,15 @@ func C25(c *Ctx) {
 				}
 			})
 		}
-		c.Decide(ok, r3, key(fn, "filters-by:keyInRange"), fn.Pos(), len(sites)+1, "kept keys satisfy keyInRange", "trimScanResponse no longer filters by keyInRange (a KV is kept on a path that is not behind its true edge)")
+		how := "kept keys satisfy keyInRange"
+		if !ok && len(sites) == 0 && sortedCutAtEnd(fn) {
+			// the other sound shape: scans start inside the region (admission rejects a start
+			// below StartKey and an empty start on a region with a lower bound, rule K5/K14
+			// above) and the applier emits keys in ascending order, so cutting the ordered
+			// output at the first key >= EndKey leaves exactly the keys of the region
+			ok, how = true, "the ordered scan output is cut at the first key >= EndKey (binary search whose predicate is exactly key >= EndKey); the lower bound is enforced at admission"
+		}
+		c.Decide(ok, r3, key(fn, "filters-by:keyInRange"), fn.Pos(), len(sites)+1, how, "trimScanResponse no longer filters by keyInRange (a KV is kept on a path that is not behind its true edge)")
 	}
 }
 
@@ -1297,4 +1305,65 @@ func mentionsLenOfField(v ssa.Value, owner, field string, depth int) bool {
 		}
 	}
 	return false
+}
+
+// sortedCutAtEnd: fn replaces ScanResponse.Kvs by Kvs[:cut] where cut is the result of a binary
+// search (sort.Search, slices.BinarySearchFunc) whose predicate answers exactly `key >= EndKey`
+// (order-sign evaluation over the three orderings), and stores nothing else into Kvs.
+func sortedCutAtEnd(fn *ssa.Function) bool {
+	stores := fieldStoresIn(fn, false, "pb.ScanResponse", "Kvs")
+	if len(stores) == 0 {
+		return false
+	}
+	for _, st := range stores {
+		sv, ok := st.(*ssa.Store)
+		if !ok {
+			return false
+		}
+		sl, ok := Unwrap(sv.Val).(*ssa.Slice)
+		if !ok || sl.High == nil || sl.Low != nil && !isZeroConst(sl.Low) || !isFieldLoad(Unwrap(sl.X), "pb.ScanResponse", "Kvs") {
+			return false
+		}
+		var call *ssa.Call
+		switch h := Unwrap(sl.High).(type) {
+		case *ssa.Call:
+			call = h
+		case *ssa.Extract:
+			call, _ = h.Tuple.(*ssa.Call)
+		}
+		if call == nil || !Named("sort.Search", "slices.BinarySearchFunc")(call.Common()) {
+			return false
+		}
+		var pred *ssa.Function
+		for _, a := range call.Call.Args {
+			if mc, ok := a.(*ssa.MakeClosure); ok {
+				pred, _ = mc.Fn.(*ssa.Function)
+			}
+		}
+		if pred == nil {
+			return false
+		}
+		role := func(v ssa.Value) string {
+			v = Unwrap(v)
+			if c, ok := v.(*ssa.Call); ok && Named("(*pb.KV).GetKey")(c.Common()) {
+				return "key"
+			}
+			if isFieldLoad(v, "pb.KV", "Key") {
+				return "key"
+			}
+			if isFieldLoad(v, "manifest.RegionMeta", "EndKey") {
+				return "end"
+			}
+			return ""
+		}
+		for _, sg := range []int{-1, 0, 1} {
+			signs := map[string]int{}
+			SetSign(signs, "key", "end", sg)
+			got := (&SignEnv{Role: role, Signs: signs, Depth: 1}).ReturnValue(pred, 0)
+			if sg < 0 && got != False || sg >= 0 && got != True {
+				return false
+			}
+		}
+	}
+	return true
 }
